@@ -60,16 +60,23 @@ def rand_input(rng, nscaf=4, maxrows=6, maxlen=3000, minlen=1, revp=0.25, prefix
     return scafs
 
 
+class ScriptList(list):
+    """the per-scaffold description of a generated script; `.lean` = the same script in the shape of Model/Pretext.lean's `Script`"""
+    lean = None
+
+
 def pretext_script(rng, scafs, bpt_s, paint=0.7, cutp=0.5, drop_subtexel=0.5, minus=0.4, max_group=3, force_floor=False):
     """PretextView model. Returns (ptx scaffolds, script description)"""
     bpt = Fraction(bpt_s)
-    pieces, script = [], []
-    for s in scafs:
+    pieces, script = [], ScriptList()
+    lean_scafs = []
+    for si, s in enumerate(scafs):
         L = slen(s["rows"])
         T = math.floor(L / bpt) if (force_floor or rng.random() < 0.5) else math.ceil(L / bpt)
         if T == 0:
             if rng.random() < drop_subtexel:
                 script.append({"scaffold": s["name"], "absent": True})
+                lean_scafs.append({"present": False, "T": 0, "cuts": []})
                 continue
             T = 1
         cuts, t = [0], 0
@@ -82,24 +89,30 @@ def pretext_script(rng, scafs, bpt_s, paint=0.7, cutp=0.5, drop_subtexel=0.5, mi
             cuts.append(t)
         cuts.append(T)
         script.append({"scaffold": s["name"], "T": T, "cuts": cuts})
-        for a, b in zip(cuts, cuts[1:]):
-            pieces.append((s["name"], math.floor(a * bpt) + 1, math.floor(b * bpt)))
+        lean_scafs.append({"present": True, "T": T, "cuts": cuts[1:-1]})
+        for k, (a, b) in enumerate(zip(cuts, cuts[1:])):
+            pieces.append((s["name"], math.floor(a * bpt) + 1, math.floor(b * bpt), si, k))
     rng.shuffle(pieces)
     ptx, i, n = [], 0, 0
+    groups = []
     while i < len(pieces):
         n += 1
         k = rng.randint(1, max_group)
         painted = rng.random() < paint
-        rows = []
-        for (nm, a, b) in pieces[i:i + k]:
+        rows, items = [], []
+        for (nm, a, b, si, pk) in pieces[i:i + k]:
             if b < a:
                 continue
             if rows:
                 rows.append(conv.jgap(100))
-            rows.append(conv.jfrag(0, nm, a, b, -1 if rng.random() < minus else 1, ["Painted"] if painted else []))
+            mn = rng.random() < minus
+            rows.append(conv.jfrag(0, nm, a, b, -1 if mn else 1, ["Painted"] if painted else []))
+            items.append({"sc": si, "k": pk, "minus": mn})
         if rows:
             ptx.append(conv.jscaffold(f"Scaffold_{n}", rows))
+            groups.append({"items": items, "painted": painted, "n": n})
         i += k
+    script.lean = {"p": bpt.numerator, "q": bpt.denominator, "scafs": lean_scafs, "groups": groups}
     return ptx, script
 
 
